@@ -513,7 +513,8 @@ def rule_solvers(F, R):
         split(conv["c"][0])
     has_crit = any(c["k"] == "bin" and c["op"] in ("<=", "<") and pp(c["c"][0]) == "criterion" and ref_decl(c["c"][1]) in eps for c in conj)
     R.check(okc and has_crit, "R-C05-8", "AL converged flag", f.loc(conv) if conv else f.loc(), "converged requires make_criterion(cstate, miu, ro) <= solver::epsilon",
-            "the AL converged flag is `%s`" % (pp(conv["c"][0]) if conv else None))
+            "the AL converged flag is `%s`: the feasibility criterion is not compared with solver::epsilon itself (a scaled or different tolerance lets "
+            "`converged` be reported with constraints violated by more than epsilon)" % (pp(conv["c"][0]) if conv else None))
     mc = [g for g in F.in_file("src/solver/augmented.cpp") if g.name == "make_criterion"]
     for g in mc[:1]:
         v = {x["n"]: pp(x["c"][0]) for x in g.nodes() if x["k"] == "var" and x.get("c")}
